@@ -193,6 +193,28 @@ class E2E:
                     handed_back["emptied"].append(fx_target.emptied(vals.build(s_)))
                     handed_back["rekeyed"].append(fx_target.rekeyed(vals.build(s_)))
                     handed_back["gen_emptied"] += list(fx_target.gen_emptied(vals.build(s_)))
+            # the in-process route: the traces go to a StubIndexBuilder that was built with ANOTHER limit (it merges with its
+            # own); what the tracer collects obeys the limit the tracing session was started with
+            from monkeytype.stubs import StubIndexBuilder
+            from monkeytype.tracing import trace_calls
+            seen_types = []
+
+            class Recording(StubIndexBuilder):
+                def log(self, t):
+                    seen_types.extend((T, []) for T in list(t.arg_types.values()) + [t.return_type, t.yield_type] if T is not None)
+                    super().log(t)
+
+            sib = Recording("fx_target", 10 if k != 10 else 1)
+            with trace_calls(sib, k, lambda code: code.co_filename == fx_target.__file__):
+                for v in vs:
+                    fx_target.ident(v)
+                    fx_target.boxed(v)
+            ctx.label("traced-into-an-index-builder-with-another-limit")
+            check_types(ctx, spec + ["index-builder-logger"], seen_types, k, "infer")
+            if k == 0:
+                text_ib = "\n".join(st_.render() for st_ in sib.get_stubs().values())
+                if "TypedDict" in text_ib:
+                    return ctx.fail("C06/stub:typeddict-with-limit-zero", spec + ["index-builder-logger"], "traced with limit 0 into an index builder: its stub mentions TypedDict\n" + text_ib[:600])
             # raw rows
             con = sqlite3.connect(db)
             raw = con.execute("select arg_types, return_type, yield_type from monkeytype_call_traces").fetchall()
